@@ -555,6 +555,11 @@ impl WinEnv for FrameEnv<'_> {
 /// step-1 record choices: 3^4 frame-data programs (each of ebp, ebx, esi, edi: not mentioned /
 /// assigned / assigned .undef) followed by the two FPO forms
 fn step1_record(choice: u64) -> (String, WinKind) {
+    // 83, 84: programs that leave $eip without a value (never assigned / undefined at the end)
+    if choice >= 83 {
+        let prog = ["$esp .raSearch 4 + =", "$eip .raSearch ^ = $esp .raSearch 4 + = $eip .undef ="][(choice - 83) as usize];
+        return (win_line('4', 0x1000, 0x100, SZ1, 1, prog), WinKind::FrameData(prog.into()));
+    }
     if choice >= 81 {
         let alloc = choice == 82;
         return (win_line('0', 0x1000, 0x100, SZ1, 0, if alloc { "1" } else { "0" }), WinKind::Fpo(alloc));
@@ -592,7 +597,14 @@ fn check_step(l: &mut Local, step: u32, exp: &WinExpect, callee: &StackFrame, ca
             }
         }
         WinExpect::Regs { regs, or_none } => {
-            let (Some(Some(eip)), Some(Some(esp))) = (regs.get("eip"), regs.get("esp")) else { panic!("harness: walk menu always assigns eip and esp") };
+            let (Some(Some(eip)), Some(Some(esp))) = (regs.get("eip"), regs.get("esp")) else {
+                // the record leaves the caller's instruction or stack pointer unknown: that is no frame (whatever
+                // another technique then finds, it is not a CFI-trust frame made of the callee's stale values)
+                if cfi_caller.is_some() {
+                    l.violation(format!("{point}:cfi-frame-without-eip-or-esp"), format!("step {step}: a CFI-trust caller frame exists although the record leaves $eip or $esp without a value"), detail());
+                }
+                return;
+            };
             if *eip < 4096 || *esp as u64 <= callee.context.get_stack_pointer() {
                 panic!("harness: walk menu must make progress");
             }
@@ -635,7 +647,7 @@ fn check_step(l: &mut Local, step: u32, exp: &WinExpect, callee: &StackFrame, ca
 }
 
 fn walk_space() -> Space {
-    let radices = [83, 3, WALK_VALID.len() as u64];
+    let radices = [85, 3, WALK_VALID.len() as u64];
     let n = product(&radices);
     let gen = move |idx: u64| -> (String, WinKind, WinKind, usize) {
         let d = unrank(idx, &radices);
